@@ -116,7 +116,10 @@ def flush (st : PState) : PState :=
 
 def step (st : PState) (c : Char) : PState :=
   if c = '.' || c = '[' then
-    if st.inLiteral then { st with s := c :: st.s }
+    if st.inLiteral then
+      -- a pending backslash was not an escape after all: written out before the separator (repair 28849f2)
+      if st.escapeNextQuote then { st with s := c :: '\\' :: st.s, escapeNextQuote := false }
+      else { st with s := c :: st.s }
     else if c = '.' && st.inBraces then { st with s := c :: st.s }
     else
       let st1 := { st with inBraces := (c = '['), startNew := true }
